@@ -103,6 +103,8 @@ MCInTrial(r) ==
      \/ /\ ~stopped /\ ~needRead /\ inner[r].ls = 0
         /\ \E rs \in {"none", "LinearSolverError"} :
              Lin(r, [op |-> "solve", raised |-> rs, finite |-> TRUE, phase |-> "trial"])
+     \/ /\ ~stopped /\ ~needRead /\ cfg[r].rcond /\ inner[r].k >= 1 /\ ~inner[r].rcf
+        /\ Lin(r, [op |-> "solve", raised |-> "LinearSolverError", finite |-> TRUE, phase |-> "rcond"])   \* a failed estimate is "no estimate"
      \/ /\ ~stopped /\ ~needRead /\ inner[r].k < KMax(r)
         /\ NewtonStep(r, [k |-> inner[r].k, raised |-> "none"])
      \/ /\ ~stopped /\ needRead
@@ -188,8 +190,9 @@ ObserverCfgs(r) == {[BaseCfg EXCEPT !.ctl = c, !.display = ds, !.ncb = n, !.coll
 TwinStopCfgs(r) == IF r = "A" THEN {[BaseCfg EXCEPT !.ctl = c, !.pen = p, !.twin = "C08"] : c \in {"Exact", "DistRatio"}, p \in {"DualNorm", "ObjFilter"}}
                    ELSE {[cfg["A"] EXCEPT !.limit = l, !.deadline = d] : l \in {NoLimit, 1, 2}, d \in {NoDeadline} \cup 1..7}
 TwinObsCfgs(r) == IF r = "A" THEN {[BaseCfg EXCEPT !.ctl = c, !.pen = p, !.twin = "C09", !.ncb = 0, !.collectPath = FALSE, !.limit = 2] : c \in {"Exact", "DistRatio"}, p \in {"DualNorm", "ObjFilter"}}
-                  ELSE {[cfg["A"] EXCEPT !.display = ds, !.ncb = n, !.collectPath = cp, !.debug = dbg] :
-                          ds \in {"never", "always", "clock"}, n \in {0, 1}, cp \in BOOLEAN, dbg \in BOOLEAN}
+                  ELSE {[cfg["A"] EXCEPT !.display = ds, !.ncb = n, !.collectPath = cp, !.debug = drc[1], !.rcond = drc[2]] :
+                          ds \in {"never", "always", "clock"}, n \in {0, 1}, cp \in BOOLEAN,
+                          drc \in {<<FALSE, FALSE>>, <<TRUE, FALSE>>, <<FALSE, TRUE>>}}
 TwinHistCfgs(r) == IF r = "A" THEN {[BaseCfg EXCEPT !.ctl = c, !.pen = "ObjFilter", !.algKey = 2, !.twin = "C10", !.limit = 1] : c \in {"Exact", "DistRatio"}}
                    ELSE {[BaseCfg EXCEPT !.ctl = c, !.pen = "ObjFilter", !.twin = "C10", !.limit = 1] : c \in {"Exact", "DistRatio"}}
 
@@ -206,8 +209,8 @@ QObserverCfgs(r) == {[BaseCfg EXCEPT !.ctl = "Exact", !.display = ds, !.ncb = n,
 QTwinStopCfgs(r) == IF r = "A" THEN {[BaseCfg EXCEPT !.ctl = "Exact", !.pen = "ObjFilter", !.twin = "C08"]}
                     ELSE {[cfg["A"] EXCEPT !.limit = l, !.deadline = d] : l \in {NoLimit, 1}, d \in {NoDeadline} \cup 1..6}
 QTwinObsCfgs(r) == IF r = "A" THEN {[BaseCfg EXCEPT !.ctl = "Exact", !.pen = "DualNorm", !.twin = "C09", !.ncb = 0, !.collectPath = FALSE, !.limit = 2]}
-                   ELSE {[cfg["A"] EXCEPT !.display = ds, !.ncb = n, !.collectPath = cp, !.debug = TRUE] :
-                          ds \in {"always", "clock"}, n \in {0, 1}, cp \in {TRUE}}
+                   ELSE {[cfg["A"] EXCEPT !.display = ds, !.ncb = n, !.collectPath = cp, !.debug = TRUE, !.rcond = rc] :
+                          ds \in {"always", "clock"}, n \in {0, 1}, cp \in {TRUE}, rc \in BOOLEAN}
 QTwinHistCfgs(r) == IF r = "A" THEN {[BaseCfg EXCEPT !.pen = "ObjFilter", !.algKey = 2, !.twin = "C10", !.limit = 1]}
                     ELSE {[BaseCfg EXCEPT !.pen = "ObjFilter", !.twin = "C10", !.limit = 1]}
 =============================================================================
